@@ -5,12 +5,12 @@ from vk.kernels import c08 as K
 
 def run(rep, tier, seed, args):
     jobs = K.jobs(tier)
-    maxlen = 3 if tier == 'quick' else 4
+    maxlen = 3 if tier == 'quick' else 5
     rep.rule = ('one case = one path of the real TieredInterval/TieredTime operators for one shape combination '
                 '(pre_length, cutoff, len) with all tier values symbolic (unbounded ints >= 0); non-trivial = the path '
                 'reached at least one obligation O1..O6 with a satisfiable path condition; paths are distinct by '
                 'construction (disjoint path conditions)')
-    rep.bounds = {'tiers_per_delay': f'<= {maxlen} (pairs, addtime), <= 3 (triples), <= {2 if tier == "quick" else 3} (associativity)',
+    rep.bounds = {'tiers_per_delay': f'<= {maxlen} (pairs, addtime), <= {3 if tier == "quick" else 4} (triples), <= {2 if tier == "quick" else 4} (associativity)',
                   'tier_values': 'unbounded integers >= 0 (symbolic)', 'outside': 'deeper group nesting than the stated number of tiers; negative tiers'}
     rep.assumptions = ['tier values are >= 0 (delays are sums of time shifts and weak hops; times start at 0)',
                        'comparable / smaller are defined by the action on all times t >= 0 (quantifier-free recursion, validated against the expanded definition on a box by the le_oracle_validation jobs)',
